@@ -2,6 +2,7 @@ import PV.IC10.FloatSem
 import PV.IC10.Spec
 import PV.Base.Crc32
 import PV.Gen.Enums
+import PV.Model.Tokens
 /-
 IC10 text → program of the physical machine (`R = Nat`: r0–r15 = 0–15, sp = 16, ra = 17; values `Float`).
 Trusted specification of the loader: comments, indentation, labels, `alias` / `define`, decimal / `$hex` /
@@ -174,14 +175,12 @@ def resolve (ctx : Ctx) (k : OpKind) (tok : String) : Except String (Opnd PReg F
   match ctx.labels.find? (·.1 == tok) with
   | some (_, n) => .ok (.num (Float.ofNat n))
   | none =>
+  -- integers, `HASH("…")`, `STR("…")`, enum names: the token semantics of `PV.Tokens.denote` (the one C08 is proved about)
+  match PV.Tokens.denote PV.Gen.enums (kindEnum k) tok.toList with
+  | some i => .ok (.num (Float.ofInt i))
+  | none =>
   match parseNumber tok with
   | some v => .ok (.num v)
-  | none =>
-  match quotedArg "HASH" tok with
-  | some s => .ok (.num (Float.ofInt (PV.calcHash s)))
-  | none =>
-  match quotedArg "STR" tok with
-  | some s => .ok (.num (Float.ofInt (strPack s)))
   | none =>
   match enumToken k tok with
   | some v => .ok (.num (Float.ofInt v))
@@ -256,7 +255,10 @@ def buildCtx (lines : List (List String)) : Ctx :=
   { labels := idx.filterMap (fun (toks, i) => (labelOf toks).map (·, i)),
     aliases := lines.filterMap (fun toks => match toks with | ["alias", n, t] => some (n, t) | _ => none),
     defines := lines.filterMap (fun toks => match toks with
-      | ["define", n, v] => (parseNumber v).map (n, ·)
+      | ["define", n, v] =>
+        match PV.Tokens.denote PV.Gen.enums none v.toList with
+        | some i => some (n, Float.ofInt i)
+        | none => (parseNumber v).map (n, ·)
       | _ => none) }
 
 structure Parsed where
